@@ -42,8 +42,15 @@ def field_kinds(e):
     raise HarnessError(f"cannot classify fields of {type(e)}")
 
 
+def is_multivector(e):
+    """pymbolic.geometric_algebra.MultiVector: not an Expression, but a node the stock
+    traversals descend into (map_multivector); its children are the coefficients"""
+    return type(e).__name__ == "MultiVector" and hasattr(e, "data") and hasattr(e, "space")
+
+
 def is_leaf_value(e):
-    return not isinstance(e, (p.Expression, tuple, list, np.ndarray))
+    return not isinstance(e, (p.Expression, tuple, list, np.ndarray)) \
+        and not is_multivector(e)
 
 
 def children(e):
@@ -68,6 +75,8 @@ def children(e):
         return [(f"[{i}]", c) for i, c in enumerate(e)]
     if isinstance(e, np.ndarray):
         return [(f"[{i}]", e[i]) for i in np.ndindex(e.shape)]
+    if is_multivector(e):
+        return [(f"[blade {bits}]", c) for bits, c in e.data.items()]
     return []
 
 
@@ -151,6 +160,9 @@ def key(e, strict=True):
         return ("list", tuple(key(c, strict) for c in e))
     if isinstance(e, np.ndarray):
         return ("ndarray", e.shape, tuple(key(c, strict) for c in e.flat))
+    if is_multivector(e):
+        return ("MultiVector", e.space.dimensions,
+                tuple(sorted((bits, key(c, strict)) for bits, c in e.data.items())))
     return _const_key(e, strict)
 
 # }}}
@@ -185,6 +197,8 @@ def rebuild(e, f):
         for i in np.ndindex(e.shape):
             r[i] = f(e[i])
         return r
+    if is_multivector(e):
+        return type(e)({bits: f(c) for bits, c in e.data.items()}, e.space)
     return e
 
 
